@@ -63,7 +63,13 @@ def gen_single(rng, kind):
     if kind == "gadd": L.append("gadd " + " ".join(co) + f" {pi} $1 $2 0 $3")
     elif kind == "gmul": L.append("gmul " + " ".join(co) + f" {pi} $1 $1 0 $3")
     elif kind == "evo":
-        co[3] = hx(rng.choice([1, R - 1, rng.scalar() or 1]))
+        co[3] = hx(rng.choice([1, R - 1, rng.scalar() or 1, 2, 9]))
+        if rng.randrange(3) == 0:
+            # the input polynomial evaluates to exactly zero: q_c (or the public input) cancels the rest
+            a_, b_, d_ = vals[0], vals[1], vals[2]
+            rest = (int(co[0], 16) * a_ * b_ + int(co[1], 16) * a_ + int(co[2], 16) * b_ + int(co[4], 16) * d_) % R
+            if pi != "-" and rng.randrange(2): pi = hx((-rest - int(co[5], 16)) % R)
+            else: co[5] = hx((-rest - (int(pi, 16) if pi != "-" else 0)) % R)
         L.append("evo " + " ".join(co) + f" {pi} $1 $2 0 $3")
     elif kind == "sel": L.append("sel $0 $1 $2")
     elif kind == "sel1": L.append("sel1 $0 $1")
@@ -123,6 +129,21 @@ def run(ck):
         ck.violation(f"{kindf}: {what} (program {name}; extracted evaluator says first bad row = {conf})",
                      {"failing_input_found": True, "program": L, "detail": detail, "kind": kindf}, key=f"probe:{kindf}")
     if bad and not found:
+        # search: on the programs that differ, does the REAL composer's own assignment satisfy the REAL rows?
+        # (every C08 component is always satisfiable by the witness it returns - a 'no' is a concrete failing input)
+        jobs = []
+        for name, d in bad[:40]:
+            if name in impl:
+                sn = Snapshot(impl[name])
+                if sn.gates and not any(l.startswith(("E ", "PANIC")) for l in impl[name]): jobs.append((name, sn, None))
+        verdicts = composer.model_sat(jobs, "c08_selfsat") if jobs else {}
+        unsat = [(n, verdicts[n]) for n, _, _ in jobs if verdicts.get(n, None) is not None]
+        if unsat:
+            name, row = min(unsat, key=lambda x: len(allp[x[0]]))
+            d = dict(bad)[name]
+            ck.violation(f"a C08 component returns a witness that does not satisfy its own rows: the real layout with the real composer's assignment fails at row {row} (program {name}; model vs implementation: {d})",
+                         {"failing_input_found": True, "program": allp[name], "first_unsatisfied_row": row, "diff_to_model": d}, key="selfsat")
+            return ck.finish(level="proof", rule="see evidence of an unviolated run", assumptions=[], checker_cmd=proofgate.CHECKER_CMD, trusted_base=proofgate.TRUSTED)
         name, d = bad[0]
         ck.violation(f"correspondence C08 (L3) broke: {len(bad)} of {len(allp)} programs differ; first: {name}: {d}; the emitted layout is not the one the theorems are about",
                      {"failing_input_found": False, "correspondence": "L3 composer snapshot vs Gallina model (theories/Composer)", "program": allp[name], "diff": d,
